@@ -199,8 +199,9 @@ CHECKS["C14"] = {
         {"pkg": _SS, "run": "^TestVerif_C14_", Q: {"timeout": 600}, T: {"timeout": 3400, "shards": 12}},
         {"pkg": ".", "run": "^TestVerif_C14_", Q: {"timeout": 900}, T: {"timeout": 3400, "shards": 8}},
         {"pkg": _SS, "run": "^TestVerifCtl_C14_", "inst": ["pkg/secretstore/secret_store_messages.go"], Q: {"timeout": 600}, T: {"timeout": 3400, "shards": 8}},
+        {"pkg": "pkg/outofstoremessage", "run": "^TestVerif_C14_", Q: {"timeout": 900}, T: {"timeout": 3400, "shards": 8}},
     ],
-    "mandatory_labels": {"all": ["log-then-push", "push-then-log", "push-twice", "near-reference-edge", "tampered", "two-senders", "two-groups", "default-windows", "bitflip-sweep", "insider-forged-push", "stores/push-before-log", "stores/push-after-log", "concurrent/dfs-schedules", "concurrent/interleaved-log-and-push", "same-sender-device-on-several-groups"]},
+    "mandatory_labels": {"all": ["log-then-push", "push-then-log", "push-twice", "near-reference-edge", "tampered", "two-senders", "two-groups", "default-windows", "bitflip-sweep", "insider-forged-push", "stores/push-before-log", "stores/push-after-log", "concurrent/dfs-schedules", "concurrent/interleaved-log-and-push", "same-sender-device-on-several-groups", "service", "service/push-far-from-the-one-the-service-saw-last"]},
 }
 
 CHECKS["C05"] = {
@@ -447,6 +448,7 @@ _ADDED6 = {
     "C07": "Contacts whose key is not a point of the curve.",
     "C08": "Group-context layer with an undecodable entry inside a delivered batch; the receiving device may be a second device of the sender's own account (multi-member group or account group).",
     "C13": "The whole (since, until, reverse) cube also over merged logs of two writers with concurrent entries, on two replicas.",
+    "C14": "Service layer: the stand-alone push service created on the account's root datastore (its default secret store next to the application's), pushes of one sender opened through the service, through the application's store or arriving through the log with generated distances between counters (reply fields and AlreadyReceived flag checked).",
     "C16": "The controlled scheduler models sync.RWMutex writer preference (readers arriving after a waiting writer wait behind it); the peer cache scenarios add readers (GetPeersForTopics / GetPeers) next to updater and waiters.",
     "C18": "Round trips also read every frame of a type into the same destination object (the usual receive loop), with frames of length zero after longer ones.",
     "C19": "Odd groups (validly signed invitations with secrets of unusual length) joined and then used by the other requests.",
